@@ -41,6 +41,15 @@ def run(res, tier, br, model_ok=True, search=False):
     # the lexer counted the literal's raw characters)
     extra.append(("right.c", "int\tf(char *s, int b)\n{\n\ts = \"hello world text\" +b;\n\tf(\"another literal\", b) ;b = 1;\n"
                   "\tb = 'c' +b;\n\treturn (0); /* trailing comment */ b++;\n}\n#define MSG \"text of a macro\" + 1\n/* block */ int g_x ;\n", 0))
+    # literals in every syntactic position (array dimension, sizeof, case label, initialiser, argument,
+    # condition, directive), comments wider than 80 columns on their own line (the only comments a length rule looks at)
+    extra.append(("ctx.c", "#if 'a' == 97\n# define A 'b'\n#endif\nint\t\tg_tab['z' + 1];\nchar\tg_buf[sizeof \"abcdef\"];\nstatic char\tg_s[] = \"init text\";\n"
+                  "enum e_x\n{\n\tA = 'a',\n\tB = sizeof(\"bb\")\n};\nint\t\tf(int c)\n{\n\tint\t\tloc['m' + 2];\n\tchar\ttmp[sizeof \"xyz\" + 1];\n\n"
+                  "\tswitch (c)\n\t{\n\t\tcase 'q':\n\t\t\treturn ('r');\n\t}\n\twhile (c != 'w' && f('v') > \"str\"[0])\n\t\tc = (c == 'k') ? 'y' : 'n';\n\treturn (loc[0] + tmp[0]);\n}\n", 0))
+    extra.append(("long.c", "// a comment line made of several words that runs well beyond the eighty columns allowed\n"
+                  "/* a block comment on one line made of several words, also wider than eighty columns ok */\n"
+                  "int\tf(void)\n{\n\t// inside a function: a comment line of several words, wider than the eighty columns\n"
+                  "\t/* inside a function, a one-line block comment of several words beyond eighty columns */\n\treturn (0);\n}\n", 0))
     bases += extra
     bases += [(n, s, 0) for n, s in (families.repo_samples() if big else families.repo_samples()[::5])]
     for name, src, hl in bases:
@@ -48,7 +57,7 @@ def run(res, tier, br, model_ok=True, search=False):
         if o0 not in ("ok", "fatal"):
             continue
         has_hdr = src.startswith("/* ****")
-        for _ in range(10 if big else (12 if name == 'right.c' else 4)):
+        for _ in range(10 if big else (12 if name in ('right.c', 'ctx.c', 'long.c') else 4)):
             sw = meta.swap_one(src, rng, header_lines=(11 if has_hdr else 0))
             if not sw:
                 break
@@ -67,7 +76,8 @@ def run(res, tier, br, model_ok=True, search=False):
         o0, d0, _ = meta.diags(name, src)
         if o0 not in ("ok", "fatal"):
             continue
-        for new, what in meta.shaped_swaps(src, rng, header_lines=(11 if src.startswith("/* ****") else 0)):
+        hl_ = 11 if src.startswith("/* ****") else 0
+        for new, what in meta.shaped_swaps(src, rng, header_lines=hl_) + (meta.class_swaps(src, rng, header_lines=hl_) if (name, src, hl) in extra or big else []):
             o1, d1, _ = meta.diags(name, new)
             res.count("swap.shapes", 1)
             res.nontriv(("sh", new))
